@@ -89,17 +89,17 @@ theorem C15_octets_canonical {T : Tables} (hT : TablesOk T) (C : Codec (Sig κ))
 /-- For every message value, relay state, allowed algorithm, direction and key: signing
     succeeds and the emitted parameters verify under the signer's certificate (also when the
     key is handed over as `sigkey`, and under the signer's own backend with no key given). -/
-theorem C15_verifies {T : Tables} (hT : TablesOk T) {C : Codec (Sig κ)} (hC : CodecLaws C) (key own : κ)
-    {typ : Str} (htyp : typ = kSAMLRequest ∨ typ = kSAMLResponse) (v rs : Str) {alg : Str}
-    (ha : alg ∈ T.allowedPack) (sigkey : Option (Pub κ)) :
+theorem C15_verifies {T : Tables} (hT : TablesOk T) {C : Codec (Sig κ)} (hC : CodecLaws C) (key : κ)
+    (own : Option κ) {typ : Str} (htyp : typ = kSAMLRequest ∨ typ = kSAMLResponse) (v rs : Str) {alg : Str}
+    (ha : alg ∈ T.allowedPack) (sigkey : Option (VKey κ)) :
     ∃ params sg, redirectMessage T C key typ v rs true (some alg) = .ok params (some sg) ∧
-      verifyRedirect T C own params (some (pub key)) sigkey = .verified ∧
-      verifyRedirect T C own params none (some (pub key)) = .verified ∧
-      verifyRedirect T C key params none none = .verified := by
+      verifyRedirect T C own params (some (.holds (.rsa (pub key)))) sigkey = .verified ∧
+      verifyRedirect T C own params none (some (.rsa (pub key))) = .verified ∧
+      verifyRedirect T C (some key) params none none = .verified := by
   obtain ⟨dig, hd, h⟩ := redirectMessage_signed hT C key htyp v rs ha
   refine ⟨_, _, h, ?_, ?_, ?_⟩ <;>
   · rw [verifyRedirect_eq_NF hT]
-    refine (verifyNF_verified_iff _ _ _ _ _ _).mpr
+    refine (verifyNF_verified_iff _ _ _ _).mpr
       ⟨alg, dig, typ, v, _, key, emitted_get_sigalg htyp .., hd, emitted_view htyp .., emitted_get_signature htyp ..,
         rfl, ?_⟩
     rw [hC.b64_roundtrip, emitted_get_relay htyp]
@@ -107,11 +107,11 @@ theorem C15_verifies {T : Tables} (hT : TablesOk T) {C : Codec (Sig κ)} (hC : C
 /-- The same through `Entity.apply_binding` with its defaults (`sign=None` ⇒ configuration,
     `sigalg` empty/None ⇒ configured algorithm). -/
 theorem C15_apply_binding_verifies {T : Tables} (hT : TablesOk T) {C : Codec (Sig κ)} (hC : CodecLaws C)
-    (key own : κ) (cfgAlg : Str) (shouldSign response : Bool) (v rs : Str) (sign : Option Bool)
+    (key : κ) (own : Option κ) (cfgAlg : Str) (shouldSign response : Bool) (v rs : Str) (sign : Option Bool)
     (sigalg : Option Str) (hsign : sign.getD shouldSign = true)
     (haE : effAlg cfgAlg sigalg ∈ T.allowedEntity) (haP : effAlg cfgAlg sigalg ∈ T.allowedPack) :
     ∃ params sg, applyBinding T C key cfgAlg shouldSign response v rs sign sigalg = .ok params (some sg) ∧
-      verifyRedirect T C own params (some (pub key)) none = .verified := by
+      verifyRedirect T C own params (some (.holds (.rsa (pub key)))) none = .verified := by
   have htyp : (if response then kSAMLResponse else kSAMLRequest) = kSAMLRequest ∨
       (if response then kSAMLResponse else kSAMLRequest) = kSAMLResponse := by
     cases response <;> simp
@@ -122,11 +122,11 @@ theorem C15_apply_binding_verifies {T : Tables} (hT : TablesOk T) {C : Codec (Si
   exact h1
 
 /-- With the tables of the current source, for the five RSA-SHA* algorithms. -/
-theorem C15_verifies_current {C : Codec (Sig κ)} (hC : CodecLaws C) (key own : κ) {typ : Str}
+theorem C15_verifies_current {C : Codec (Sig κ)} (hC : CodecLaws C) (key : κ) (own : Option κ) {typ : Str}
     (htyp : typ = kSAMLRequest ∨ typ = kSAMLResponse) (v rs : Str) {alg : Str}
     (ha : alg ∈ [uriRsaSha1, uriRsaSha224, uriRsaSha256, uriRsaSha384, uriRsaSha512]) :
     ∃ params sg, redirectMessage genTables C key typ v rs true (some alg) = .ok params (some sg) ∧
-      verifyRedirect genTables C own params (some (pub key)) none = .verified := by
+      verifyRedirect genTables C own params (some (.holds (.rsa (pub key)))) none = .verified := by
   have ha' : alg ∈ genTables.allowedPack := by rw [C15_tables_regenerated.1]; exact ha
   obtain ⟨p, sg, h1, h2, _, _⟩ := C15_verifies C15_tables_ok hC key own htyp v rs ha' none
   exact ⟨p, sg, h1, h2⟩
@@ -157,19 +157,21 @@ theorem C15_no_signer_unreachable {T : Tables} (hT : TablesOk T) (C : Codec (Sig
 /-! ## Verification binds message, relay state, algorithm, signature and key -/
 
 /-- If a received dictionary verifies and its Signature parameter denotes `k`'s signature
-    (digest `d`) over the octet string of `(typ, v, rs, alg)`, then the verification key is `k`'s,
+    (digest `d`) over the octet string of `(typ, v, rs, alg)`, then verification ran under `k`'s RSA
+    public key (the certificate's, or `sigkey`, or — with neither given — the verifier's own),
     and the dictionary carries exactly that direction and value, that RelayState (or none), that
     SigAlg, and `d` is the digest of that SigAlg. -/
-theorem C15_binds {T : Tables} (hT : TablesOk T) {C : Codec (Sig κ)} (hC : CodecLaws C) (own : κ)
-    (msg : Dict) (cert sigkey : Option (Pub κ)) (k : κ) (d typ v alg : Str) (rs : Option Str) (sigText : Str)
+theorem C15_binds {T : Tables} (hT : TablesOk T) {C : Codec (Sig κ)} (hC : CodecLaws C) (own : Option κ)
+    (msg : Dict) (cert : Option (Cert κ)) (sigkey : Option (VKey κ)) (k : κ) (d typ v alg : Str)
+    (rs : Option Str) (sigText : Str)
     (hsig : msg.get kSignature = some sigText)
     (hdec : C.b64d sigText = some (.signed k d (canonOctets C.enc typ v rs alg)))
     (hver : verifyRedirect T C own msg cert sigkey = .verified) :
-    effKey own cert sigkey = pub k ∧ view msg = some (typ, v) ∧ msg.get kRelayState = rs ∧
+    effKey own cert sigkey = .under (some (pub k)) ∧ view msg = some (typ, v) ∧ msg.get kRelayState = rs ∧
       msg.get kSigAlg = some alg ∧ Dict.get T.signers alg = some d := by
   rw [verifyRedirect_eq_NF hT] at hver
   obtain ⟨alg', dig', typ', v', st', k', h1, h2, h3, h4, h5, h6⟩ :=
-    (verifyNF_verified_iff _ _ _ _ _ _).mp hver
+    (verifyNF_verified_iff _ _ _ _).mp hver
   rw [hsig] at h4
   cases h4
   rw [hdec] at h6
@@ -184,13 +186,13 @@ theorem C15_binds {T : Tables} (hT : TablesOk T) {C : Codec (Sig κ)} (hC : Code
     RelayState (changed, dropped or added), in the SigAlg, or is checked under another key, does
     not verify. -/
 theorem C15_any_change_fails {T : Tables} (hT : TablesOk T) {C : Codec (Sig κ)} (hC : CodecLaws C)
-    (key own : κ) {typ : Str} (htyp : typ = kSAMLRequest ∨ typ = kSAMLResponse) (v rs : Str) {alg : Str}
-    (ha : alg ∈ T.allowedPack) (params : Dict) (sg : Signed κ)
+    (key : κ) (own : Option κ) {typ : Str} (htyp : typ = kSAMLRequest ∨ typ = kSAMLResponse) (v rs : Str)
+    {alg : Str} (ha : alg ∈ T.allowedPack) (params : Dict) (sg : Signed κ)
     (hs : redirectMessage T C key typ v rs true (some alg) = .ok params (some sg))
-    (msg' : Dict) (cert sigkey : Option (Pub κ))
+    (msg' : Dict) (cert : Option (Cert κ)) (sigkey : Option (VKey κ))
     (hreuse : (msg'.get kSignature).bind C.b64d = some sg.sig)
     (hchg : view msg' ≠ some (typ, v) ∨ msg'.get kRelayState ≠ rsOpt rs ∨ msg'.get kSigAlg ≠ some alg ∨
-      effKey own cert sigkey ≠ pub key) :
+      effKey own cert sigkey ≠ .under (some (pub key))) :
     verifyRedirect T C own msg' cert sigkey ≠ .verified := by
   intro hver
   obtain ⟨dig, _, h⟩ := redirectMessage_signed hT C key htyp v rs ha
@@ -212,15 +214,15 @@ theorem C15_any_change_fails {T : Tables} (hT : TablesOk T) {C : Codec (Sig κ)}
 
 /-- The Signature parameter is bound as well: two dictionaries with the same covered values that
     both verify under the same key carry the same signature octets (whatever their base64 text). -/
-theorem C15_signature_bound {T : Tables} (hT : TablesOk T) (C : Codec (Sig κ)) (own : κ) (msg msg' : Dict)
-    (cert sigkey : Option (Pub κ)) (hview : view msg' = view msg)
+theorem C15_signature_bound {T : Tables} (hT : TablesOk T) (C : Codec (Sig κ)) (own : Option κ)
+    (msg msg' : Dict) (cert : Option (Cert κ)) (sigkey : Option (VKey κ)) (hview : view msg' = view msg)
     (hrs : msg'.get kRelayState = msg.get kRelayState) (halg : msg'.get kSigAlg = msg.get kSigAlg)
     (h : verifyRedirect T C own msg cert sigkey = .verified)
     (h' : verifyRedirect T C own msg' cert sigkey = .verified) :
     (msg'.get kSignature).bind C.b64d = (msg.get kSignature).bind C.b64d := by
   rw [verifyRedirect_eq_NF hT] at h h'
-  obtain ⟨a, d, t, v, st, k, h1, h2, h3, h4, h5, h6⟩ := (verifyNF_verified_iff _ _ _ _ _ _).mp h
-  obtain ⟨a', d', t', v', st', k', h1', h2', h3', h4', h5', h6'⟩ := (verifyNF_verified_iff _ _ _ _ _ _).mp h'
+  obtain ⟨a, d, t, v, st, k, h1, h2, h3, h4, h5, h6⟩ := (verifyNF_verified_iff _ _ _ _).mp h
+  obtain ⟨a', d', t', v', st', k', h1', h2', h3', h4', h5', h6'⟩ := (verifyNF_verified_iff _ _ _ _).mp h'
   rw [halg, h1] at h1'
   cases h1'
   rw [h2] at h2'
@@ -229,6 +231,7 @@ theorem C15_signature_bound {T : Tables} (hT : TablesOk T) (C : Codec (Sig κ)) 
   cases h3'
   rw [h5] at h5'
   have hk : k = k' := by
+    simp only [KeyRes.under.injEq, Option.some.injEq] at h5'
     have := congrArg Pub.id h5'
     simpa [pub] using this
   subst hk
@@ -236,28 +239,40 @@ theorem C15_signature_bound {T : Tables} (hT : TablesOk T) (C : Codec (Sig κ)) 
 
 /-- A junk Signature (octets that are nobody's signature) never verifies, and neither does a
     message without a Signature or with undecodable base64. -/
-theorem C15_bad_signature_fails (T : Tables) (C : Codec (Sig κ)) (own : κ) (msg : Dict)
-    (cert sigkey : Option (Pub κ))
+theorem C15_bad_signature_fails (T : Tables) (C : Codec (Sig κ)) (own : Option κ) (msg : Dict)
+    (cert : Option (Cert κ)) (sigkey : Option (VKey κ))
     (h : ∀ st, msg.get kSignature = some st → ∀ k d m, C.b64d st ≠ some (.signed k d m)) :
     verifyRedirect T C own msg cert sigkey ≠ .verified := by
   intro hv
-  unfold verifyRedirect at hv
-  split at hv
-  · cases hv
-  · split at hv
-    · cases hv
-    · simp only at hv
-      split at hv
-      · cases hv
-      · split at hv
-        · cases hv
-        next st hst =>
-          split at hv
-          · cases hv
-          next s hs =>
-            cases s with
-            | junk n => simp [Sig.verify] at hv
-            | signed k d m => exact h st hst k d m hs
+  obtain ⟨_, st, k, d, m, _, hst, hs⟩ := verifyWith_verified T C _ msg hv
+  exact h st hst k d m hs
+
+/-- A certificate without a usable key never verifies: a certificate that holds a key of another
+    kind (EC, Ed25519, DSA) or a string that is no certificate, whoever verifies (whatever key the
+    verifier's own backend holds, whatever `sigkey` is passed along) and whatever the message.  The
+    same for a non-RSA `sigkey`, and for a key-less backend given no key at all. -/
+theorem C15_unusable_key_never_verifies (T : Tables) (C : Codec (Sig κ)) (own : Option κ) (msg : Dict)
+    (cert : Option (Cert κ)) (sigkey : Option (VKey κ))
+    (h : cert = some (.holds .other) ∨ cert = some .malformed ∨ (cert = none ∧ sigkey = some .other) ∨
+      (cert = none ∧ sigkey = none ∧ own = none)) :
+    verifyRedirect T C own msg cert sigkey ≠ .verified := by
+  have hk : effKey own cert sigkey = .raises ∨ effKey own cert sigkey = .under none := by
+    rcases h with h | h | ⟨h1, h2⟩ | ⟨h1, h2, h3⟩
+    · subst h; exact Or.inr rfl
+    · subst h; exact Or.inl rfl
+    · subst h1 h2; exact Or.inr rfl
+    · subst h1 h2 h3; exact Or.inr rfl
+  intro hv
+  obtain ⟨pk, _, _, _, _, hkr, _⟩ := verifyWith_verified T C _ msg hv
+  rcases hk with hk | hk <;> rw [hk] at hkr <;> cases hkr
+
+/-- The verifier's own key is used only when the caller gives neither certificate nor `sigkey`:
+    with a certificate, the outcome does not depend on the backend's key or on `sigkey`. -/
+theorem C15_certificate_decides (T : Tables) (C : Codec (Sig κ)) (own own' : Option κ) (msg : Dict)
+    (c : Cert κ) (sigkey sigkey' : Option (VKey κ)) :
+    verifyRedirect T C own msg (some c) sigkey = verifyRedirect T C own' msg (some c) sigkey' := by
+  unfold verifyRedirect effKey
+  cases c <;> rfl
 
 /-! ## Algorithms outside the allow-list are refused for signing -/
 
@@ -293,11 +308,11 @@ theorem C15_disallowed_refused_current (C : Codec (Sig κ)) (key : κ) (typ v rs
 
 /-! ## An unsupported SigAlg is never treated as verified -/
 
-theorem C15_unsupported_never_verified (T : Tables) (C : Codec (Sig κ)) (own : κ) (msg : Dict)
-    (cert sigkey : Option (Pub κ)) (h : ∀ a, msg.get kSigAlg = some a → Dict.get T.signers a = none) :
+theorem C15_unsupported_never_verified (T : Tables) (C : Codec (Sig κ)) (own : Option κ) (msg : Dict)
+    (cert : Option (Cert κ)) (sigkey : Option (VKey κ)) (h : ∀ a, msg.get kSigAlg = some a → Dict.get T.signers a = none) :
     verifyRedirect T C own msg cert sigkey = .none ∨
       verifyRedirect T C own msg cert sigkey = .error .keyError := by
-  unfold verifyRedirect
+  unfold verifyRedirect verifyWith
   cases hA : msg.get kSigAlg with
   | none => exact Or.inr rfl
   | some a =>
@@ -306,7 +321,7 @@ theorem C15_unsupported_never_verified (T : Tables) (C : Codec (Sig κ)) (own : 
     exact Or.inl rfl
 
 /-- … and the receiver treats that answer (`None`, not `False`) as a failure. -/
-theorem C15_unsupported_refused_by_receiver (T : Tables) (C : Codec (Sig κ)) (own : κ) (certs : List (Pub κ))
+theorem C15_unsupported_refused_by_receiver (T : Tables) (C : Codec (Sig κ)) (own : Option κ) (certs : List (VKey κ))
     (origdoc : Str) (relayState sigalg signature : Option Str)
     (h : ∀ a, sigalg = some a → Dict.get T.signers a = none) :
     redirectSigCheck T C own certs origdoc relayState sigalg signature = false := by
@@ -318,14 +333,15 @@ theorem C15_unsupported_refused_by_receiver (T : Tables) (C : Codec (Sig κ)) (o
     | none => rfl
     | some s =>
       simp only
-      have hall : ∀ c : Pub κ, verifyRedirect T C own (loadsMsg origdoc a s relayState) (some c) none = .none := by
+      have hall : ∀ c : VKey κ,
+          verifyRedirect T C own (loadsMsg origdoc a s relayState) (some (.holds c)) none = .none := by
         intro c
-        unfold verifyRedirect
+        unfold verifyRedirect verifyWith
         rw [loadsMsg_get_alg]
         simp only
         rw [h a rfl]
-      have : ∀ l : List (Pub κ), anyVerified (l.map fun c =>
-          verifyRedirect T C own (loadsMsg origdoc a s relayState) (some c) none) = some false := by
+      have : ∀ l : List (VKey κ), anyVerified (l.map fun c =>
+          verifyRedirect T C own (loadsMsg origdoc a s relayState) (some (.holds c)) none) = some false := by
         intro l
         induction l with
         | nil => rfl
@@ -338,11 +354,11 @@ theorem C15_unsupported_refused_by_receiver (T : Tables) (C : Codec (Sig κ)) (o
 /-- A receiver that insists on signed requests accepts a redirect request only if SigAlg and
     Signature were supplied and `verify_redirect_signature` returned True for one of the
     certificates metadata binds to the sender. -/
-theorem C15_receiver_accepts_only_verified (T : Tables) (C : Codec (Sig κ)) (own : κ) (wellformed : Bool)
-    (certs : List (Pub κ)) (origdoc : Str) (relayState sigalg signature : Option Str)
+theorem C15_receiver_accepts_only_verified (T : Tables) (C : Codec (Sig κ)) (own : Option κ) (wellformed : Bool)
+    (certs : List (VKey κ)) (origdoc : Str) (relayState sigalg signature : Option Str)
     (h : requestAccepted T C own true true wellformed certs origdoc relayState sigalg signature = true) :
     ∃ a s c, sigalg = some a ∧ signature = some s ∧ c ∈ certs ∧
-      verifyRedirect T C own (loadsMsg origdoc a s relayState) (some c) none = .verified := by
+      verifyRedirect T C own (loadsMsg origdoc a s relayState) (some (.holds c)) none = .verified := by
   unfold requestAccepted redirectSigCheck at h
   simp only [Bool.and_self, if_true, Bool.and_eq_true] at h
   obtain ⟨h, _⟩ := h
@@ -353,9 +369,9 @@ theorem C15_receiver_accepts_only_verified (T : Tables) (C : Codec (Sig κ)) (ow
     | none => cases h
     | some s =>
       simp only [beq_iff_eq] at h
-      suffices ∀ l : List (Pub κ), anyVerified (l.map fun c =>
-          verifyRedirect T C own (loadsMsg origdoc a s relayState) (some c) none) = some true →
-          ∃ c ∈ l, verifyRedirect T C own (loadsMsg origdoc a s relayState) (some c) none = .verified by
+      suffices ∀ l : List (VKey κ), anyVerified (l.map fun c =>
+          verifyRedirect T C own (loadsMsg origdoc a s relayState) (some (.holds c)) none) = some true →
+          ∃ c ∈ l, verifyRedirect T C own (loadsMsg origdoc a s relayState) (some (.holds c)) none = .verified by
         obtain ⟨c, hc, hv⟩ := this certs h
         exact ⟨a, s, c, rfl, rfl, hc, hv⟩
       intro l
@@ -364,7 +380,7 @@ theorem C15_receiver_accepts_only_verified (T : Tables) (C : Codec (Sig κ)) (ow
       | cons c t ih =>
         intro h
         simp only [List.map_cons] at h
-        cases hc : verifyRedirect T C own (loadsMsg origdoc a s relayState) (some c) none with
+        cases hc : verifyRedirect T C own (loadsMsg origdoc a s relayState) (some (.holds c)) none with
         | verified => exact ⟨c, List.mem_cons_self, hc⟩
         | error e => rw [hc] at h; cases h
         | notVerified =>
@@ -379,23 +395,26 @@ theorem C15_receiver_accepts_only_verified (T : Tables) (C : Codec (Sig κ)) (ow
 /-- End to end at the receiver: an accepted request whose Signature denotes `k`'s signature over
     `(typ, v, rs, alg)` was signed with a key of the sender's metadata, as a SAMLRequest, over
     exactly the received message value, RelayState (present or not) and SigAlg. -/
-theorem C15_receiver_binds {T : Tables} (hT : TablesOk T) {C : Codec (Sig κ)} (hC : CodecLaws C) (own : κ)
-    (wellformed : Bool) (certs : List (Pub κ)) (origdoc : Str) (relayState sigalg signature : Option Str)
-    (k : κ) (d typ v alg : Str) (rs : Option Str)
+theorem C15_receiver_binds {T : Tables} (hT : TablesOk T) {C : Codec (Sig κ)} (hC : CodecLaws C)
+    (own : Option κ) (wellformed : Bool) (certs : List (VKey κ)) (origdoc : Str)
+    (relayState sigalg signature : Option Str) (k : κ) (d typ v alg : Str) (rs : Option Str)
     (hdec : signature.bind C.b64d = some (.signed k d (canonOctets C.enc typ v rs alg)))
     (h : requestAccepted T C own true true wellformed certs origdoc relayState sigalg signature = true) :
-    pub k ∈ certs ∧ typ = kSAMLRequest ∧ v = origdoc ∧ rs = relayState ∧ sigalg = some alg := by
+    VKey.rsa (pub k) ∈ certs ∧ typ = kSAMLRequest ∧ v = origdoc ∧ rs = relayState ∧ sigalg = some alg := by
   obtain ⟨a, s, c, h1, h2, h3, h4⟩ :=
     C15_receiver_accepts_only_verified T C own wellformed certs origdoc relayState sigalg signature h
   subst h1 h2
   simp only [Option.bind_some] at hdec
-  obtain ⟨e1, e2, e3, e4, _⟩ := C15_binds hT hC own _ (some c) none k d typ v alg rs s
+  obtain ⟨e1, e2, e3, e4, _⟩ := C15_binds hT hC own _ (some (.holds c)) none k d typ v alg rs s
     (loadsMsg_get_sig ..) hdec h4
   rw [loadsMsg_view] at e2
   rw [loadsMsg_get_relay] at e3
   rw [loadsMsg_get_alg] at e4
   simp only [Option.some.injEq, Prod.mk.injEq] at e2 e4
-  have : c = pub k := e1
+  have : c = .rsa (pub k) := by
+    cases c with
+    | other => simp [effKey, VKey.pub?] at e1
+    | rsa pk => simp only [effKey, VKey.pub?, KeyRes.under.injEq, Option.some.injEq] at e1; rw [e1]
   subst this
   exact ⟨h3, e2.1.symm, e2.2.symm, e3.symm, by rw [e4]⟩
 
@@ -471,23 +490,25 @@ theorem C15_model_meets_spec_apply_binding (C : Codec (Sig κ)) (key : κ) (cfgA
       have : stdDigest (effAlg cfgAlg sigalg) = none := (stdDigest_none_iff _).mpr h
       simp [this]
 
-theorem C15_model_meets_spec_verify (C : Codec (Sig κ)) (own : κ) (msg : Dict) (cert sigkey : Option (Pub κ)) :
-    specVerify C msg (effKey own cert sigkey) (verifyRedirect genTables C own msg cert sigkey) = true := by
-  rw [C15_tables_regenerated.1, verifyRedirect_eq_NF C15_std_tables_ok]
-  -- verified ↔ authentic in the direction `view` selects
-  have key : verifyNF stdTables C own msg cert sigkey = .verified ↔
-      ∃ typ v, view msg = some (typ, v) ∧ authentic C msg (effKey own cert sigkey) typ = true := by
+theorem C15_model_meets_spec_verify (C : Codec (Sig κ)) (own : Option κ) (msg : Dict) (cert : Option (Cert κ))
+    (sigkey : Option (VKey κ)) :
+    specVerify C msg (verificationKey own cert sigkey) (verifyRedirect genTables C own msg cert sigkey) = true := by
+  rw [C15_tables_regenerated.1, verifyRedirect_eq_NF C15_std_tables_ok, ← effKey_verificationKey]
+  generalize effKey own cert sigkey = kr
+  -- verified ↔ there is an RSA key and the message is authentic under it in the direction `view` selects
+  have key : verifyNF stdTables C kr msg = .verified ↔
+      ∃ pk typ v, kr = .under (some pk) ∧ view msg = some (typ, v) ∧ authentic C msg pk typ = true := by
     rw [verifyNF_verified_iff]
     constructor
     · rintro ⟨alg, dig, typ, v, st, k, h1, h2, h3, h4, h5, h6⟩
-      refine ⟨typ, v, h3, (authentic_iff _ _ _ _).mpr ⟨v, alg, st, dig, k, ?_, h1, h4, h2, h5, h6⟩⟩
+      refine ⟨pub k, typ, v, h5, h3, (authentic_iff _ _ _ _).mpr ⟨v, alg, st, dig, k, ?_, h1, h4, h2, rfl, h6⟩⟩
       unfold view at h3
       split at h3
       · cases h3; assumption
       · split at h3
         · cases h3; assumption
         · cases h3
-    · rintro ⟨typ, v, h3, ha⟩
+    · rintro ⟨pk, typ, v, hkr, h3, ha⟩
       obtain ⟨v', alg, st, dig, k, g1, g2, g3, g4, g5, g6⟩ := (authentic_iff _ _ _ _).mp ha
       have : v' = v := by
         unfold view at h3
@@ -497,11 +518,12 @@ theorem C15_model_meets_spec_verify (C : Codec (Sig κ)) (own : κ) (msg : Dict)
           next w hw => cases h3; rw [hw] at g1; cases g1; rfl
           · cases h3
       subst this
-      exact ⟨alg, dig, typ, v', st, k, g2, g4, h3, g3, g5, g6⟩
+      exact ⟨alg, dig, typ, v', st, k, g2, g4, h3, g3, by rw [hkr, g5], g6⟩
   unfold specVerify
-  cases hout : verifyNF stdTables C own msg cert sigkey with
+  cases hout : verifyNF stdTables C kr msg with
   | verified =>
-    obtain ⟨typ, v, h3, ha⟩ := key.mp hout
+    obtain ⟨pk, typ, v, hkr, h3, ha⟩ := key.mp hout
+    subst hkr
     have : typ = kSAMLRequest ∨ typ = kSAMLResponse := by
       unfold view at h3
       split at h3
@@ -515,28 +537,35 @@ theorem C15_model_meets_spec_verify (C : Codec (Sig κ)) (own : κ) (msg : Dict)
     split
     · rfl
     next hboth =>
-      have hnot : ¬ ∃ typ v, view msg = some (typ, v) ∧ authentic C msg (effKey own cert sigkey) typ = true := by
+      have hnot : ¬ ∃ pk typ v, kr = .under (some pk) ∧ view msg = some (typ, v) ∧
+          authentic C msg pk typ = true := by
         intro h; rw [key.mpr h] at hout; cases hout
-      simp only [Bool.not_eq_true', Bool.or_eq_false_iff]
-      constructor
-      · cases ha : authentic C msg (effKey own cert sigkey) kSAMLRequest with
-        | false => rfl
-        | true =>
-          obtain ⟨v, _, _, _, _, g1, _⟩ := (authentic_iff _ _ _ _).mp ha
-          exact absurd ⟨kSAMLRequest, v, by unfold view; rw [g1], ha⟩ hnot
-      · cases ha : authentic C msg (effKey own cert sigkey) kSAMLResponse with
-        | false => rfl
-        | true =>
-          obtain ⟨v, _, _, _, _, g1, _⟩ := (authentic_iff _ _ _ _).mp ha
-          have hreq : msg.get kSAMLRequest = none := by
-            cases hr : msg.get kSAMLRequest with
-            | none => rfl
-            | some w =>
-              exact absurd (by simp [Dict.has, hr, g1]) hboth
-          exact absurd ⟨kSAMLResponse, v, by unfold view; rw [hreq, g1], ha⟩ hnot
+      cases kr with
+      | raises => rfl
+      | under opk =>
+        cases opk with
+        | none => rfl
+        | some pk =>
+          simp only [Bool.not_eq_true', Bool.or_eq_false_iff]
+          constructor
+          · cases ha : authentic C msg pk kSAMLRequest with
+            | false => rfl
+            | true =>
+              obtain ⟨v, _, _, _, _, g1, _⟩ := (authentic_iff _ _ _ _).mp ha
+              exact absurd ⟨pk, kSAMLRequest, v, rfl, by unfold view; rw [g1], ha⟩ hnot
+          · cases ha : authentic C msg pk kSAMLResponse with
+            | false => rfl
+            | true =>
+              obtain ⟨v, _, _, _, _, g1, _⟩ := (authentic_iff _ _ _ _).mp ha
+              have hreq : msg.get kSAMLRequest = none := by
+                cases hr : msg.get kSAMLRequest with
+                | none => rfl
+                | some w =>
+                  exact absurd (by simp [Dict.has, hr, g1]) hboth
+              exact absurd ⟨pk, kSAMLResponse, v, rfl, by unfold view; rw [hreq, g1], ha⟩ hnot
 
-theorem C15_model_meets_spec_server (C : Codec (Sig κ)) (own : κ) (must redirect wellformed : Bool)
-    (certs : List (Pub κ)) (origdoc : Str) (relayState sigalg signature : Option Str) :
+theorem C15_model_meets_spec_server (C : Codec (Sig κ)) (own : Option κ) (must redirect wellformed : Bool)
+    (certs : List (VKey κ)) (origdoc : Str) (relayState sigalg signature : Option Str) :
     specServer C must redirect wellformed certs origdoc relayState sigalg signature
       (requestAccepted genTables C own must redirect wellformed certs origdoc relayState sigalg signature)
       = true := by
@@ -556,28 +585,43 @@ theorem C15_model_meets_spec_server (C : Codec (Sig κ)) (own : κ) (must redire
       | some s =>
         simp only
         rw [C15_tables_regenerated.1]
-        -- the signature check is exactly "authentic under one of the certificates"
-        have hiff : ∀ c : Pub κ,
-            verifyRedirect stdTables C own (loadsMsg origdoc a s relayState) (some c) none = .verified ↔
-            authentic C (loadsMsg origdoc a s relayState) c kSAMLRequest = true := by
+        -- the signature check is exactly "authentic under the RSA key of one of the certificates"
+        have hiff : ∀ c : VKey κ,
+            verifyRedirect stdTables C own (loadsMsg origdoc a s relayState) (some (.holds c)) none = .verified ↔
+            (match c with
+             | .rsa pk => authentic C (loadsMsg origdoc a s relayState) pk kSAMLRequest
+             | .other => false) = true := by
           intro c
-          rw [verifyRedirect_eq_NF C15_std_tables_ok, verifyNF_verified_iff, authentic_iff]
-          constructor
-          · rintro ⟨alg, dig, typ, v, st, k, h1, h2, h3, h4, h5, h6⟩
-            rw [loadsMsg_view] at h3
-            cases h3
-            exact ⟨origdoc, alg, st, dig, k, loadsMsg_get_req .., h1, h4, h2, h5, h6⟩
-          · rintro ⟨v, alg, st, dig, k, g1, g2, g3, g4, g5, g6⟩
-            rw [loadsMsg_get_req] at g1
-            cases g1
-            exact ⟨alg, dig, kSAMLRequest, origdoc, st, k, g2, g4, loadsMsg_view .., g3, g5, g6⟩
+          rw [verifyRedirect_eq_NF C15_std_tables_ok, verifyNF_verified_iff]
+          cases c with
+          | other =>
+            simp only [Bool.false_eq_true, iff_false]
+            rintro ⟨alg, dig, typ, v, st, k, _, _, _, _, h5, _⟩
+            simp [effKey, VKey.pub?] at h5
+          | rsa pk =>
+            simp only [authentic_iff]
+            constructor
+            · rintro ⟨alg, dig, typ, v, st, k, h1, h2, h3, h4, h5, h6⟩
+              rw [loadsMsg_view] at h3
+              cases h3
+              simp only [effKey, VKey.pub?, KeyRes.under.injEq, Option.some.injEq] at h5
+              exact ⟨origdoc, alg, st, dig, k, loadsMsg_get_req .., h1, h4, h2, h5, h6⟩
+            · rintro ⟨v, alg, st, dig, k, g1, g2, g3, g4, g5, g6⟩
+              rw [loadsMsg_get_req] at g1
+              cases g1
+              exact ⟨alg, dig, kSAMLRequest, origdoc, st, k, g2, g4, loadsMsg_view .., g3,
+                by simp [effKey, VKey.pub?, g5], g6⟩
         have hany := anyVerified_map
-          (fun c => verifyRedirect stdTables C own (loadsMsg origdoc a s relayState) (some c) none) certs
+          (fun c : VKey κ =>
+            verifyRedirect stdTables C own (loadsMsg origdoc a s relayState) (some (.holds c)) none) certs
           (by
             intro c c' e he
             rw [verifyRedirect_eq_NF C15_std_tables_ok] at he ⊢
-            exact verifyNF_error_indep _ _ _ _ _ _ _ _ e he)
-        cases hA : certs.any fun c => authentic C (loadsMsg origdoc a s relayState) c kSAMLRequest with
+            exact verifyNF_error_indep _ _ _ _ _ e he)
+        cases hA : certs.any fun c =>
+            match c with
+            | .rsa pk => authentic C (loadsMsg origdoc a s relayState) pk kSAMLRequest
+            | .other => false with
         | true =>
           obtain ⟨c, hc, hauth⟩ := List.any_eq_true.mp hA
           have := hany.mpr ⟨c, hc, (hiff c).mpr hauth⟩
@@ -585,14 +629,17 @@ theorem C15_model_meets_spec_server (C : Codec (Sig κ)) (own : κ) (must redire
           cases wellformed <;> rfl
         | false =>
           cases hB : anyVerified (certs.map fun c =>
-              verifyRedirect stdTables C own (loadsMsg origdoc a s relayState) (some c) none) with
+              verifyRedirect stdTables C own (loadsMsg origdoc a s relayState) (some (.holds c)) none) with
           | none => cases wellformed <;> rfl
           | some b =>
             cases b with
             | false => cases wellformed <;> rfl
             | true =>
               obtain ⟨c, hc, hv⟩ := hany.mp hB
-              have : (certs.any fun c => authentic C (loadsMsg origdoc a s relayState) c kSAMLRequest) = true :=
+              have : (certs.any fun c =>
+                  match c with
+                  | .rsa pk => authentic C (loadsMsg origdoc a s relayState) pk kSAMLRequest
+                  | .other => false) = true :=
                 List.any_eq_true.mpr ⟨c, hc, (hiff c).mp hv⟩
               rw [this] at hA; cases hA
 
@@ -640,30 +687,41 @@ def params0 : Dict :=
 def setKey (d : Dict) (k v : Str) : Dict := d.map fun p => if p.1 = k then (k, v) else p
 
 -- C15_verifies: right certificate
-example : verifyRedirect genTables toy 1 params0 (some (pub 7)) none = .verified := by decide +kernel
+example : verifyRedirect genTables toy (some 1) params0 (some (.holds (.rsa (pub 7)))) none = .verified := by decide +kernel
 -- wrong certificate, own-key fallback
-example : verifyRedirect genTables toy 1 params0 (some (pub 8)) none = .notVerified := by decide +kernel
-example : verifyRedirect genTables toy 1 params0 none none = .notVerified := by decide +kernel
-example : verifyRedirect genTables toy 7 params0 none none = .verified := by decide +kernel
+example : verifyRedirect genTables toy (some 1) params0 (some (.holds (.rsa (pub 8)))) none = .notVerified := by decide +kernel
+example : verifyRedirect genTables toy (some 1) params0 none none = .notVerified := by decide +kernel
+example : verifyRedirect genTables toy (some 7) params0 none none = .verified := by decide +kernel
 -- C15_any_change_fails: one character of the relay state / the message / another allowed algorithm
-example : verifyRedirect genTables toy 1 (setKey params0 kRelayState [97, 32, 98, 38, 99, 61, 101])
-    (some (pub 7)) none = .notVerified := by decide +kernel
-example : verifyRedirect genTables toy 1 (setKey params0 kSAMLRequest [101, 74, 119, 43, 47, 119, 61])
-    (some (pub 7)) none = .notVerified := by decide +kernel
-example : verifyRedirect genTables toy 1 (setKey params0 kSigAlg uriRsaSha1)
-    (some (pub 7)) none = .notVerified := by decide +kernel
+example : verifyRedirect genTables toy (some 1) (setKey params0 kRelayState [97, 32, 98, 38, 99, 61, 101])
+    (some (.holds (.rsa (pub 7)))) none = .notVerified := by decide +kernel
+example : verifyRedirect genTables toy (some 1) (setKey params0 kSAMLRequest [101, 74, 119, 43, 47, 119, 61])
+    (some (.holds (.rsa (pub 7)))) none = .notVerified := by decide +kernel
+example : verifyRedirect genTables toy (some 1) (setKey params0 kSigAlg uriRsaSha1)
+    (some (.holds (.rsa (pub 7)))) none = .notVerified := by decide +kernel
 -- RelayState dropped
-example : verifyRedirect genTables toy 1 (params0.del kRelayState) (some (pub 7)) none = .notVerified := by
+example : verifyRedirect genTables toy (some 1) (params0.del kRelayState) (some (.holds (.rsa (pub 7)))) none = .notVerified := by
   decide +kernel
 -- unsupported algorithm: falls through (`None`), the receiver refuses
-example : verifyRedirect genTables toy 1 (setKey params0 kSigAlg [120]) (some (pub 7)) none = .none := by
+example : verifyRedirect genTables toy (some 1) (setKey params0 kSigAlg [120]) (some (.holds (.rsa (pub 7)))) none = .none := by
   decide +kernel
-example : redirectSigCheck genTables toy 1 [pub 7] v0 (some rs0) (some [120]) (params0.get kSignature) = false := by
+example : redirectSigCheck genTables toy (some 1) [.rsa (pub 7)] v0 (some rs0) (some [120]) (params0.get kSignature) = false := by
   decide +kernel
 -- the receiver accepts the untouched request when one of two certificates is the signer's
-example : requestAccepted genTables toy 1 true true true [pub 3, pub 7] v0 (some rs0) (some uriRsaSha256)
+example : requestAccepted genTables toy (some 1) true true true [.rsa (pub 3), .other, .rsa (pub 7)] v0 (some rs0) (some uriRsaSha256)
     (params0.get kSignature) = true := by decide +kernel
-example : requestAccepted genTables toy 1 true true true [pub 3, pub 8] v0 (some rs0) (some uriRsaSha256)
+example : requestAccepted genTables toy (some 1) true true true [.rsa (pub 3), .other, .rsa (pub 8)] v0 (some rs0) (some uriRsaSha256)
+    (params0.get kSignature) = false := by decide +kernel
+-- C15_unusable_key_never_verifies: a certificate holding a non-RSA key, verifier = the signer itself
+-- (its own key would verify: it is not used); a string that is no certificate; a key-less verifier
+example : verifyRedirect genTables toy (some 7) params0 (some (.holds .other)) none = .notVerified := by
+  decide +kernel
+example : verifyRedirect genTables toy (some 7) params0 (some (.holds .other)) (some (.rsa (pub 7)))
+    = .notVerified := by decide +kernel
+example : verifyRedirect genTables toy (some 7) params0 (some .malformed) none = .error .cert := by
+  decide +kernel
+example : verifyRedirect genTables toy none params0 none none = .notVerified := by decide +kernel
+example : requestAccepted genTables toy (some 7) true true true [.other] v0 (some rs0) (some uriRsaSha256)
     (params0.get kSignature) = false := by decide +kernel
 -- C15_disallowed_refused: rsa-md5 (not in the list), and no algorithm at all
 example : redirectMessage genTables toy 7 kSAMLRequest v0 rs0 true
@@ -671,7 +729,7 @@ example : redirectMessage genTables toy 7 kSAMLRequest v0 rs0 true
 example : redirectMessage genTables toy 7 kSAMLResponse v0 [] true none = .refused .notAllowedPack := by
   decide +kernel
 -- a junk signature
-example : verifyRedirect genTables toy 1 (setKey params0 kSignature [0, 5]) (some (pub 7)) none = .notVerified := by
+example : verifyRedirect genTables toy (some 1) (setKey params0 kSignature [0, 5]) (some (.holds (.rsa (pub 7)))) none = .notVerified := by
   decide +kernel
 -- hypotheses of C15_binds / C15_receiver_binds are satisfiable (see the examples above), and the
 -- laws hold for `toy`
@@ -690,15 +748,16 @@ unused bits of the last sextet.  See the builder's report for the direct call. -
 
 /-- literal reading: a verified parameter set stops verifying when the Signature text changes -/
 def C15_signature_text_literal_full : Prop :=
-  ∀ (C : Codec (Sig Nat)), CodecLaws C → ∀ (own : Nat) (msg : Dict) (cert sigkey : Option (Pub Nat)) (st st' : Str),
+  ∀ (C : Codec (Sig Nat)), CodecLaws C → ∀ (own : Option Nat) (msg : Dict) (cert : Option (Cert Nat))
+    (sigkey : Option (VKey Nat)) (st st' : Str),
     msg.get kSignature = some st → st' ≠ st →
     verifyRedirect genTables C own msg cert sigkey = .verified →
     verifyRedirect genTables C own (setKey msg kSignature st') cert sigkey ≠ .verified
 
 /-- what holds instead (for every codec, lawful or not): the text may change only within the
     texts that denote the same octets -/
-theorem C15_signature_text_literal_partial (C : Codec (Sig κ)) (own : κ) (msg msg' : Dict)
-    (cert sigkey : Option (Pub κ)) (hview : view msg' = view msg)
+theorem C15_signature_text_literal_partial (C : Codec (Sig κ)) (own : Option κ) (msg msg' : Dict)
+    (cert : Option (Cert κ)) (sigkey : Option (VKey κ)) (hview : view msg' = view msg)
     (hrs : msg'.get kRelayState = msg.get kRelayState) (halg : msg'.get kSigAlg = msg.get kSigAlg)
     (hdiff : (msg'.get kSignature).bind C.b64d ≠ (msg.get kSignature).bind C.b64d)
     (h : verifyRedirect genTables C own msg cert sigkey = .verified) :
@@ -708,7 +767,7 @@ theorem C15_signature_text_literal_partial (C : Codec (Sig κ)) (own : κ) (msg 
 theorem C15_signature_text_literal_counterexample : ¬ C15_signature_text_literal_full := by
   intro h
   have hst : params0.get kSignature = some ((params0.get kSignature).getD []) := by decide +kernel
-  refine h toy toy_laws 1 params0 (some (pub 7)) none _
+  refine h toy toy_laws (some 1) params0 (some (.holds (.rsa (pub 7)))) none _
     (2 :: ((params0.get kSignature).getD []).tail) hst (by decide +kernel) (by decide +kernel) ?_
   decide +kernel
 
